@@ -46,14 +46,15 @@
 EXTENDS Naturals, FiniteSets, TLC, Json
 
 CONSTANTS Desc, OnCancel, WaitDelay, ReapedGroupKill, GroupWhenTranslated,
+          StaleWaited,   \* FALSE: as coded.  TRUE (sensitivity): an object that has completed a run before remembers "already waited for" and its cancellation signals nobody
           TermThenWait   \* FALSE: as coded (TERM, then KILL to the group at once).  TRUE (sensitivity): the kill waits for the direct child to die of TERM first
 
 Procs == {0} \cup Desc
-VARIABLES parent, inGroup, ignTerm, holds, rootExits, startMode, stopMode, launcher, rootIgnTerm,    \* the scenario
+VARIABLES parent, inGroup, ignTerm, holds, rootExits, startMode, stopMode, launcher, rootIgnTerm, reused,    \* the scenario
           spawned, alive, phase, termSent, isOn
 
-scenario == <<parent, inGroup, ignTerm, holds, rootExits, startMode, stopMode, launcher, rootIgnTerm>>
-vars == <<parent, inGroup, ignTerm, holds, rootExits, startMode, stopMode, launcher, rootIgnTerm, spawned, alive, phase, termSent, isOn>>
+scenario == <<parent, inGroup, ignTerm, holds, rootExits, startMode, stopMode, launcher, rootIgnTerm, reused>>
+vars == <<parent, inGroup, ignTerm, holds, rootExits, startMode, stopMode, launcher, rootIgnTerm, reused, spawned, alive, phase, termSent, isOn>>
 
 Init == /\ parent \in [Desc -> Procs] /\ \A d \in Desc : parent[d] < d
         /\ inGroup \in [Desc -> BOOLEAN] /\ ignTerm \in [Desc -> BOOLEAN] /\ holds \in [Desc -> BOOLEAN]
@@ -68,6 +69,8 @@ Init == /\ parent \in [Desc -> Procs] /\ \A d \in Desc : parent[d] < d
         /\ launcher \in {"direct", "translated"}
         \* the direct child itself may ignore SIGTERM (a shell with a trap, an init-like wrapper); it does not then exit by itself either
         /\ rootIgnTerm \in BOOLEAN /\ (rootIgnTerm => ~rootExits)
+        \* the Subprocess object has completed a run before (started and stopped once): what that run left behind must not matter
+        /\ reused \in BOOLEAN /\ (reused => (launcher = "direct" /\ ~rootIgnTerm))     \* (the scenario space is kept tractable)
         /\ spawned = [p \in Procs |-> p = 0] /\ alive = [p \in Procs |-> p = 0]
         /\ phase = "running" /\ termSent = FALSE /\ isOn = TRUE
 
@@ -93,7 +96,7 @@ Reachable(d) == spawned[d] /\ alive[parent[d]] /\ (parent[d] = 0 \/ Reachable(pa
 \* signals: either the direct child only, or TERM to it then KILL to the whole group
 Signals == /\ phase = "requested"
            /\ ~(TermThenWait /\ rootIgnTerm /\ alive[0])     \* waiting for a death by TERM that never comes
-           /\ IF startMode = "execute" /\ ~alive[0] /\ ~ReapedGroupKill
+           /\ IF (startMode = "execute" /\ ~alive[0] /\ ~ReapedGroupKill) \/ (StaleWaited /\ reused /\ startMode = "execute")
               THEN UNCHANGED alive          \* the direct child was already waited for: nobody left to signal
               ELSE IF KillTree /\ HasGroup
               THEN alive' = [p \in Procs |-> IF p = 0 \/ (p \in Desc /\ inGroup[p]) THEN FALSE ELSE alive[p]]
@@ -122,7 +125,7 @@ OutOfScopeSurvivors == {d \in Desc : spawned[d] /\ alive[d] /\ ~inGroup[d]}
 
 Scenario == [parent |-> [d \in Desc |-> parent[d]], inGroup |-> [d \in Desc |-> inGroup[d]], ignTerm |-> [d \in Desc |-> ignTerm[d]],
              holds |-> [d \in Desc |-> holds[d]], rootExits |-> rootExits, startMode |-> startMode, stopMode |-> stopMode,
-             launcher |-> launcher, rootIgnTerm |-> rootIgnTerm, desc |-> Desc]
+             launcher |-> launcher, rootIgnTerm |-> rootIgnTerm, reused |-> reused, desc |-> Desc]
 EmitView == scenario
 Emit == PrintT(<<"BEHAVIOUR", ToJson(Scenario)>>)
 =============================================================================
